@@ -69,6 +69,7 @@ func errIsSentinel(from *ssa.BasicBlock, si int) (string, bool, bool) {
 
 func runC20(c *Ctx) {
 	checkPublish(c, func(n string) string { return "C20-" + n })
+	checkErrorTablesAgree(c, "C20-R3")
 	runC20Rest(c)
 }
 
